@@ -37,6 +37,10 @@ m = {
                            'priorities, explored by CrossHair'},
         {'name': 'lemmas', 'path': '/verif/lemmas', 'serves_properties': ['C14'],
          'kind_free_text': 'stand-alone SMT-LIB lemmas (z3 4.8.12, z3 5.1, cvc5) justifying shim S2'},
+        {'name': 'SMT', 'path': '/verif/vlib/smtob.py', 'serves_properties': ['C06', 'C18'],
+         'kind_free_text': 'straight-line string functions translated from the current source (Python AST -> SMT-LIB '
+                           'strings, vlib/smtstr.py), encoding validated on concrete samples, vacuity twin, one cvc5 '
+                           'query per clause, models replayed on the real function'},
     ],
     'checks': [],
     'notes': NOTES,
